@@ -456,7 +456,7 @@ def gen_e2e_vshape(rng, cid, directed=None, **kw):
     v0 = [rng.choice([0.0, 0.5 + rng.unit(), 3.0]) for _ in range(vr * vc)]
     recs = m['recs']
     line = e2e_case(cid, m['directed'], m['assort'], m['from_init'], m['ltype'], m['wtype'], m['r'], m['maxit'], m['nconv'], m['seed'],
-                    [s for s, _, _ in recs], [t for _, t, _ in recs], [w for _, _, ws in recs for w in ws], m['aff'], N, K, m['u0'], vr, vc, v0, [], [])
+                    [s for s, _, _ in recs], [t for _, t, _ in recs], [w for _, _, ws in recs for w in ws], m['aff'], N, K, m['u0'], vr, vc, v0, [], [], kw.get('trace', 0))
     m['v0'] = v0
     m['vshape'] = (vr, vc)
     return line, m
